@@ -294,9 +294,24 @@ def r14_3(ctx):
     pos = [ast.unparse(x) for x in call.args]
     got_err = kw.get("error_estimate", pos[0] if pos else None)
     got_prev = kw.get("prev_step_size", pos[1] if len(pos) > 1 else None)
-    rep.check(got_err == err and got_prev == size, "R14.3", astq.loc(fi, call), f"{fi.key}::R14.3::call-args",
-              f"update_step_size is called with error_estimate={got_err}, prev_step_size={got_prev}; expected the fresh "
-              f"estimate `{err}` and the current step size `{size}`", "called with the estimate and the current step size")
+    rep.check(got_err == err, "R14.3", astq.loc(fi, call), f"{fi.key}::R14.3::call-args",
+              f"update_step_size is called with error_estimate={got_err}; expected the fresh estimate `{err}`",
+              "called with the fresh estimate")
+    # "rejected and retried smaller": the controller must scale the length of the step that was actually tried -- near
+    # ts[-1] the trial is clipped and can be much shorter than the nominal step size; scaling the nominal size instead
+    # repeats the identical clipped trial until the nominal size has shrunk below it
+    for p in _paths(ctx, True):
+        te = ik.trial_end(p)
+        for args, kwargs, node, _ng in p.extras["update_step_size"]:
+            prev = kwargs.get("prev_step_size", args[1] if len(args) > 1 else None)
+            want = (te - ik.H("curr_t")) if te is not None else None
+            ok = want is not None and isinstance(prev, Rat) and nf.equal(prev, want)
+            rep.check(ok, "R14.3", astq.loc(fi, node), f"{fi.key}::R14.3::scales-trial::{p.label()}",
+                      f"the controller is given prev_step_size = `{prev}`; the step that was tried has length `{want}` "
+                      f"(clipped to ts[-1] near the end): after a rejection the next trial is factor * `{prev}`, which need "
+                      f"not be smaller than the rejected trial -- the same clipped trial is repeated (e.g. dt=0.1, ts=[0, 1], "
+                      f"adaptive: the trial (0.826, 1.0) is taken six times in a row)",
+                      "prev_step_size is the length of the trial step")
     ctx.floor("R14.3", 4)
 
 
